@@ -21,10 +21,15 @@ M = [
      "        if n > 4096 { self.0.drain(0..n - 1); } else { self.0.drain(0..n); }"),
     # --- C02
     ("C02", "src/channel.rs", "            mandatory: publish.mandatory,", "            mandatory: publish.immediate,"),
-    ("C02", "src/io_loop/channel_handle.rs",
-     "            .send_content_header(class_id, content.len(), properties)?;",
-     "            .send_content_header(class_id, self.frame_max.min(content.len() + 1), properties)?;"),
-    ("C02", "src/io_loop/channel_handle.rs", "        if !content.is_empty() {", "        if true {"),
+    ("C02", "src/io_loop/io_loop_handle.rs",
+     "        buf.push_content_header(self.channel_id, class_id, content.len(), properties);",
+     "        buf.push_content_header(self.channel_id, class_id, max_body_len.min(content.len() + 1), properties);"),
+    ("C02", "src/io_loop/io_loop_handle.rs",
+     "        if !content.is_empty() {\n            buf.push_content_body(self.channel_id, content);",
+     "        if true {\n            buf.push_content_body(self.channel_id, content);"),
+    ("C02", "src/io_loop/io_loop_handle.rs",
+     "        while content.len() > max_body_len {",
+     "        while content.len() >= max_body_len {"),
     # --- C03
     ("C03", "src/io_loop/content_collector.rs", "                    Ordering::Less => {", "                    Ordering::Greater => {"),
     ("C03", "src/delivery.rs", "                redelivered: deliver.redelivered,", "                redelivered: !deliver.redelivered,"),
